@@ -1,4 +1,4 @@
-\* leg A quick (C08): retries; 2 calls, up to 2 killed connections, no cancel / Close
+\* design-level window: setIdle before the hand-over lets another call close the connection first
 SPECIFICATION Spec
 CONSTANTS
   NCalls = 2
@@ -9,14 +9,14 @@ CONSTANTS
   RandomSelect = FALSE
   LockInOnce = FALSE
   Dev = {}
-  MaxFaults = 2
-  Kinds = {"eof", "silent"}
+  MaxFaults = 1
+  Kinds = {"eof"}
   OrderedStart = TRUE
   CancelCalls = {}
   EnvTClose = FALSE
   Coarse = TRUE
   WithHist = FALSE
 VIEW ViewNoHist
-INVARIANTS TypeOK FailOnlyWhen AttemptsBounded NoLoss ErrOnFault ClosedRejects CloseWakesAll ArmedIsShortWhenOwed OneAtATime IdleSound NoLockCycle
+INVARIANTS NoLossStrict
 
 CHECK_DEADLOCK FALSE
